@@ -1,5 +1,6 @@
 import PwVerif.Proofs.Edit
 import PwVerif.Proofs.BridgeC14C13
+import PwVerif.Proofs.WfIO
 /-!
 # C14 — Graph edits are all-or-nothing and a replacement inherits the old node's place
 
@@ -129,6 +130,46 @@ theorem C14_wf_io_survives (fuel : Nat) (w : W) (p old new : Nat) (w' : W) (hk :
     (h : compReplace (Cfg.repaired fuel) w p old new = (w', .ok)) (hinv : Inv w.g) (htab : Tables w old new)
     (hself : NoSelfConn w.g old) (hsib : SiblingsApart w p old new) : wfIoOk w' p = true :=
   wf_rebuild_ok (Cfg.repaired fuel) rfl rfl rfl rfl rfl w p old new w' hk h hinv htab hself hsib
+
+/-- the dry run is EXACT, for every assignment of child labels, channel labels and renaming maps
+(no hypothesis on labels: delimiters inside labels, prefixes, names equal to canonical keys of
+siblings are all covered): its verdict before the swap is the buildability of the IO view after
+the swap, in the tree that has the dry run and in the tree that has not -/
+theorem C14_dry_run_exact (cfg : Cfg) (ho : cfg.onlyNewUndo = true) (ha : cfg.adoptPrecheck = true)
+    (hlp : cfg.linkPrecheck = true) (hpos : cfg.positional = true) (w : W) (p old new : Nat) (w' : W)
+    (h : compReplace cfg w p old new = (w', .ok)) (hinv : Inv w.g) (htab : Tables w old new)
+    (hself : NoSelfConn w.g old) (hsib : SiblingsApart w p old new) :
+    wfIoOk w' p = true ↔ dryOk w p old new = true := by
+  rw [wfIoOk_eq_dryOk cfg ho ha hlp hpos w p old new w' h hinv htab hself hsib]
+
+/-- … and that verdict is C15's criterion for the would-be panels: a panel can be built exactly
+when no two visible channels share a key (`WfIO.NoClash`, `C15_io_defined`) -/
+theorem C14_dry_run_is_noclash (w : W) (p old new : Nat) :
+    dryOk w p old new = true ↔
+      (WfIO.NoClash (w.imap p) (dryConn w old new) (dryChans w p old new NodeIO.inp) ∧
+       WfIO.NoClash (w.omap p) (dryConn w old new) (dryChans w p old new NodeIO.out)) := by
+  have key : ∀ m c chans, (WfIO.buildIO m c chans).isSome = true ↔ WfIO.NoClash m c chans := by
+    intro m c chans
+    constructor
+    · intro hs
+      obtain ⟨q, hq⟩ := Option.isSome_iff_exists.mp hs
+      exact ((WfIO.buildIO_some_iff _ _ _ q).mp hq).1
+    · intro hn
+      exact Option.isSome_iff_exists.mpr ⟨_, (WfIO.buildIO_some_iff _ _ _ _).mpr ⟨hn, rfl⟩⟩
+  unfold dryOk
+  rw [Bool.and_eq_true, key, key]
+
+/-- the order inside the value setter (forward to the receiver, THEN store) is what the unwinding
+of `_copy_panel` rests on: a refused assignment leaves the world untouched, whatever the depth of the
+value-link chain below the channel … -/
+theorem C14_refused_assignment_untouched (w : W) (f c : Nat) (v : Option Nat)
+    (h : (setValG false w f c v).2 = false) : (setValG false w f c v).1 = w :=
+  setValG_refused_untouched w f c v h
+
+/-- … and the model's `_copy_panel` is the one over that setter -/
+theorem C14_copy_panel_forward_then_store (fuel : Nat) (ps : List (Option Nat × Nat)) (w : W)
+    (log : List (Nat × Option Nat)) : copyPanelG false fuel w ps log = copyPanel fuel true w ps log :=
+  copyPanelG_false fuel ps w log
 
 /-- (a) the tree as it is now (`Cfg.head`), any composite that is not a workflow -/
 theorem C14_head_replace_atomic (fuel : Nat) (w : W) (p old new : Nat) (hinv : Inv w.g)
@@ -608,6 +649,18 @@ example : Inv (replace rep w9 0 2 5).1.g ∧ Tree.WFTree (replace rep w9 0 2 5).
   obtain ⟨h1, h2⟩ := C14_preserves_C12_C13 64 w9 0 2 5 w9_inv t9_wf htab hself hm hsib
   exact ⟨h1, h2, by decide, by decide, fun _ => ⟨htab, hself, hsib⟩⟩
 
+/-- labels that contain the key delimiter, no renaming map at all: workflow 0 owns `a` (=1) and
+`a__b` (=2, whose unconnected input 20 is labelled `c`); the replacement 3 of `a` brings an input
+30 labelled `b__c`: `a` + `b__c` and `a__b` + `c` are the same key (seeded change C14-5) -/
+def wK : W := { mkW (mkTree [(0, .workflow)] [(0, "w"), (1, "a"), (2, "a__b"), (3, "r")] [(0, [1, 2])] [])
+    (exG0 fun _ _ => true) with
+  io := fun n => if n = 0 then ⟨[], [], [3, 4], [5]⟩ else if n = 3 then ⟨[31, 30], [32], [33, 34], [35]⟩ else exIO n,
+  clab := fun c => if c = 20 then "c" else if c = 30 then "b__c" else if c = 31 then "x" else exLab c }
+
+example : dryOk wK 0 1 3 = false ∧ wfIoOk wK 0 = true ∧
+    (replace rep wK 0 1 3).2 = .valueError ∧ (replace rep wK 0 1 3).1.t.parent 3 = none ∧
+    (replace (Cfg.head 64) wK 0 1 3).2 = .typeError ∧ (replace (Cfg.head 64) wK 0 1 3).1.t.parent 3 = some 0 := by decide
+
 /-! ### D3 — refused adoption (KF-C13-9; repaired in the tree by `fix: 02da358`) -/
 
 /-- workflow-kind replacement 2 for the unconnected child 1 of macro 0 -/
@@ -691,6 +744,32 @@ example : ValuesOk rep w6 2 1 := by
     simp only [w6, mkW, exIO, List.mem_cons, List.not_mem_nil, or_false] at hc ⊢
     omega
 
+/-- a value-link chain that gets stricter downstream: `10 → 20 → 30`, the end refuses the value 9;
+node 4 holds 9 on its `x` -/
+def wS : W := { mkW (mkTree [] [] [] []) (exG0 fun _ _ => true) with
+  recv := fun c => if c = 10 then some 20 else if c = 20 then some 30 else none,
+  val := fun c => if c = 40 then some 9 else if c = 10 ∨ c = 20 ∨ c = 30 then some 1 else none,
+  admits := fun c v => !(c == 30 && v == 9) }
+
+/-- store-then-forward (seeded change C14-6): the refusal at the end of the chain leaves the two
+channels above it holding the refused value, nothing is logged for unwinding, so the failed hard
+copy is not all-or-nothing; with the order of the code the same copy changes nothing -/
+theorem C14_setter_order_witness :
+    ¬ (∀ (w : W) (ps : List (Option Nat × Nat)), (copyPanelG true 64 w ps []).2.2 = true →
+        revertVals 64 (copyPanelG true 64 w ps []).1 (copyPanelG true 64 w ps []).2.1 = w) := by
+  intro hS
+  have := hS wS [(some 10, 40)] (by decide)
+  have h1 : (revertVals 64 (copyPanelG true 64 wS [(some 10, 40)] []).1
+      (copyPanelG true 64 wS [(some 10, 40)] []).2.1).val 10 = some 9 := by decide
+  rw [this] at h1
+  exact absurd h1 (by decide)
+
+example : (copyPanelG true 64 wS [(some 10, 40)] []).1.val 20 = some 9 ∧
+    (copyPanelG true 64 wS [(some 10, 40)] []).2.1 = [] ∧
+    (copyPanelG false 64 wS [(some 10, 40)] []).2.2 = true ∧
+    (copyPanelG false 64 wS [(some 10, 40)] []).1.val 10 = some 1 ∧
+    (copyPanelG false 64 wS [(some 10, 40)] []).1.val 20 = some 1 := by decide
+
 /-! ### D8 — flow derivation -/
 
 /-- macro 0 owns a=1, b=2, c=3; data `b.x ← a.o`, `c.x ← a.o` and the cycle `a.y ← c.o`; the
@@ -718,6 +797,11 @@ end PwVerif.C14
 #print axioms PwVerif.C14.C14_replace_atomic
 #print axioms PwVerif.C14.C14_wf_replace_atomic
 #print axioms PwVerif.C14.C14_wf_io_survives
+#print axioms PwVerif.C14.C14_dry_run_exact
+#print axioms PwVerif.C14.C14_dry_run_is_noclash
+#print axioms PwVerif.C14.C14_refused_assignment_untouched
+#print axioms PwVerif.C14.C14_copy_panel_forward_then_store
+#print axioms PwVerif.C14.C14_setter_order_witness
 #print axioms PwVerif.C14.C14_head_replace_atomic
 #print axioms PwVerif.C14.C14_head_inherits
 #print axioms PwVerif.C14.C14_preserves_C12_C13
